@@ -36,6 +36,8 @@ func runC16(w *World, r *Report) {
 	hrObfuscationFlagAlwaysRead(w, r, "R3")
 	hrQueryParamKey(w, r, "R3")
 	hrObfuscationLookups(w, r, "R3")
+	hrObfuscateStringHashes(w, r, "R2")
+	hrHeaderKeyOnlyFromBracketForm(w, r, "R3")
 	hrHeaderExclusionLists(w, r, "R3")
 	hrDecompressFallsBackToRaw(w, r, "R2")
 	hrHARPluginHasher(w, r, "R1")
